@@ -136,8 +136,8 @@ func vfMax1(m int) int {
 // the documents their meaning selects, in increasing order, none twice, and
 // never hand back a match object that is still held by the caller.
 //
-// vf:harness property=C07 cases=shape:0,1,6,8;min:0;np:2;heap:0;calls:3|shape:7;min:0;np:2;heap:0..1;calls:3|shape:2;min:0..2;np:2;heap:0..1;calls:2|shape:2;min:2;np:2;heap:0;calls:3|shape:4;min:0..1;np:2;heap:0;calls:3|shape:3;min:2;np:2;heap:0..1;calls:2|shape:5;min:1;np:2;heap:0;calls:2 cases.thorough=shape:0..8;min:0..3;np:2;heap:0..1;calls:3|shape:0,2,6;min:0..1;np:3;heap:0;calls:4 maxpaths=900000 unwind=400
-// vf:bounds 9 query shapes (and/or/min-should/must-not, depth <= 2, <= 3 clauses); each leaf has np postings (quick 2, thorough 3) with arbitrary strictly increasing document numbers drawn from 0..255 (overlaps between leaves arbitrary; the searchers only compare and copy document numbers, so every order pattern of the at most nine numbers and the target is covered); disjunctions as slice searcher and as heap searcher (takeover threshold lowered through the package variable); driver of `calls` steps, each Next or Advance(t) with an arbitrary forward target t (greater than the last returned document)
+// vf:harness property=C07 cases=shape:0,1,6,8;min:0;np:2;heap:0;calls:3|shape:7;min:0;np:2;heap:0..1;calls:3|shape:2;min:0..2;np:2;heap:0..1;calls:2|shape:2;min:2;np:2;heap:0;calls:3|shape:4;min:0..1;np:2;heap:0;calls:3|shape:3;min:2;np:2;heap:0..1;calls:2|shape:5;min:1;np:2;heap:0;calls:2 cases.thorough=shape:0..8;min:0..3;np:2;heap:0..1;calls:3 maxpaths=900000 unwind=400
+// vf:bounds 9 query shapes (and/or/min-should/must-not, depth <= 2, <= 3 clauses); each leaf has np = 2 postings with arbitrary strictly increasing document numbers drawn from 0..255 (overlaps between leaves arbitrary; the searchers only compare and copy document numbers, so every order pattern of the at most nine numbers and the target is covered); disjunctions as slice searcher and as heap searcher (takeover threshold lowered through the package variable); driver of `calls` steps, each Next or Advance(t) with an arbitrary forward target t (greater than the last returned document)
 // vf:assume leaf searchers are model posting lists obeying the Searcher contract (real term searchers over postings are C08's PostingsAcrossSegments); constant leaf scores; Advance targets move forward, as every caller in the library does
 func VF_C07_BooleanStructure(shape int, min int, np int, heap int, calls int) {
 	if heap == 1 {
